@@ -192,7 +192,7 @@ def register(reg):
     @reg.contract
     class Close(Contract):
         key = H11 + ".aclose"
-        props = ("C06", "C01", "C05")
+        props = ("C06", "C01", "C05", "C07")
         modifies = ("H11._state", "NS.open")
         raises = ["Cancelled"]
         call_raises = []
@@ -201,7 +201,7 @@ def register(reg):
             s = c.self
             stream = c.new(s, "H11._network_stream")
             return [
-                ("state_closed", ("C01", "C05", "C06"), F(c, s, "H11._state") == CLOSED),
+                ("state_closed", ("C01", "C05", "C06", "C07"), F(c, s, "H11._state") == CLOSED),
                 ("stream_closed", ("C06",), z3.Not(F(c, stream, "NS.open"))),
             ]
 
@@ -219,7 +219,7 @@ def register(reg):
                     seen_write = True
                 if e.name == "suspend" and not seen_write:
                     ok = False
-            return [("closed_flag_before_first_await", ("C01",), ok)]
+            return [("closed_flag_before_first_await", ("C01", "C05", "C07"), ok)]
 
         exc_checks = lambda self, c, exc: self.checks(c)  # noqa: E731
 
